@@ -13,6 +13,7 @@ import (
 // Host describes the places outside the chart a template or schema may try to reach.
 type Host struct {
 	CanaryDir string // absolute directory holding canary.txt and defs.json (outside every chart)
+	HTTPBase  string // "http://127.0.0.1:<port>" of the harness' loopback listener ("" = none)
 }
 
 func (h Host) CanaryTxt() string  { return h.CanaryDir + "/canary.txt" }
@@ -26,7 +27,8 @@ func rngFor(seed int64, id string) *rand.Rand {
 
 var flavours = map[string][]string{
 	"plain": {"plain", "annot"}, "annot": {"plain", "annot"},
-	"hook1": {"hook1", "hookw", "hook2"}, "hookw": {"hook1", "hookw", "hook2"}, "hook2": {"hook1", "hookw", "hook2"},
+	"hook1": {"hook1", "hookw", "hook2", "hookU"}, "hookw": {"hook1", "hookw", "hook2", "hookU"},
+	"hook2": {"hook1", "hookw", "hook2", "hookU"}, "hookU": {"hook1", "hookw", "hook2", "hookU"},
 	"unk": {"unk", "mixed"}, "mixed": {"unk", "mixed"},
 }
 
@@ -97,7 +99,8 @@ func Refine(cl CaseLine, seed int64) CaseLine {
 var hookAnn = map[string][3]string{ // events, weight, delete policies
 	"hook1": {"pre-install", "", ""},
 	"hookw": {"post-install", "-5", "before-hook-creation"},
-	"hook2": {"pre-install,post-upgrade", "3", "hook-succeeded,hook-failed"},
+	"hook2": {"pre-install, POST-UPGRADE", "3", "hook-succeeded,hook-failed"}, // event names are case-insensitive
+	"hookU": {"Pre-Install", "", ""},
 	"unk":   {"pre-instal", "1", ""},
 	"mixed": {"pre-install,bogus-event", "", "hook-succeeded"},
 }
@@ -133,6 +136,10 @@ func progText(g string, h Host, rank int) string {
 		return `{{ .Values.s1.state | default "unset" }}`
 	case "MUT": // mutates the elements of a list that comes from the chart's default values
 		return `{{ range .Values.ports }}{{ $_ := set . "name" (printf "%s-%s" $.Release.Name .name) }}{{ end }}{{ (index .Values.ports 0).name }}`
+	case "CAPV":
+		return `{{ .Capabilities.KubeVersion.Version }}`
+	case "CAPA": // an API version that only an --api-versions option could add
+		return `{{ .Capabilities.APIVersions.Has "verif.example/v9" }}`
 	case "FAIL":
 		return fmt.Sprintf(`{{ fail "boom-%d" }}`, rank)
 	case "ENV":
@@ -224,6 +231,9 @@ func schemaJSON(form string, h Host) string {
 		ref = "file://" + h.CanaryDefs() + "#/$defs/x"
 	case "http":
 		ref = "http://schema.invalid/defs.json#/$defs/x"
+		if h.HTTPBase != "" { // a listener of the harness that counts requests and follows the canary
+			ref = h.HTTPBase + "/defs.json#/$defs/x"
+		}
 	}
 	return fmt.Sprintf(`{"type":"object","properties":{"x":{"$ref":"%s"}},"$defs":{"str":{"type":"string"}}}`, ref)
 }
